@@ -32,6 +32,22 @@ class Collection:
     pass
 
 
+def _numpyFillOrder(values):
+    """Order in which a collection passes numpy arrays to its children.
+
+    The number of rows is only known once some child has evaluated a quantity. A child that cannot find it out by
+    itself (a Count, or a collection of those) would take a scalar weight for a single row, so such children are
+    filled after the others.
+    """
+
+    def needsShape(x):
+        if isinstance(x, Collection):
+            return all(needsShape(v) for v in x.values)
+        return x.name == "Count"
+
+    return sorted(values, key=needsShape)
+
+
 class Label(Factory, Container, Collection):
     """Accumulate any number of aggregators of the same type and label them with strings.
 
@@ -213,7 +229,7 @@ class Label(Factory, Container, Collection):
             self._checkNPWeights(weights, shape)
             weights = self._makeNPWeights(weights, shape)
 
-        for x in self.values:
+        for x in _numpyFillOrder(self.values):
             x._numpy(data, weights, shape)
 
         # no possibility of exception from here on out (for rollback)
@@ -447,7 +463,7 @@ class UntypedLabel(Factory, Container, Collection):
             self._checkNPWeights(weights, shape)
             weights = self._makeNPWeights(weights, shape)
 
-        for x in self.values:
+        for x in _numpyFillOrder(self.values):
             x._numpy(data, weights, shape)
 
         # no possibility of exception from here on out (for rollback)
@@ -681,7 +697,7 @@ class Index(Factory, Container, Collection):
             self._checkNPWeights(weights, shape)
             weights = self._makeNPWeights(weights, shape)
 
-        for x in self.values:
+        for x in _numpyFillOrder(self.values):
             x._numpy(data, weights, shape)
 
         # no possibility of exception from here on out (for rollback)
@@ -923,7 +939,7 @@ class Branch(Factory, Container, Collection):
             self._checkNPWeights(weights, shape)
             weights = self._makeNPWeights(weights, shape)
 
-        for x in self.values:
+        for x in _numpyFillOrder(self.values):
             x._numpy(data, weights, shape)
 
         # no possibility of exception from here on out (for rollback)
